@@ -92,6 +92,7 @@ type world struct {
 	noScope  bool           // a Bearer challenge without scope parameter was sent during this call
 	perReq   map[string]int // registry sends per X-Verif-Req (concurrent cases)
 
+	fetchHook func(req *http.Request) error // optional: may abort a token request (concurrency cases)
 	gate func(service string) // optional barrier inside the token endpoint (concurrency cases)
 }
 
@@ -541,9 +542,15 @@ func (w *world) tokenEndpoint(req *http.Request, body []byte, dump string) (*htt
 		}
 		out = resp(req, 200, http.Header{"Content-Type": {"application/json"}}, fmt.Sprintf(`{"%s":"%s","expires_in":300}`, field, tk))
 	}
+	hook := w.fetchHook
 	w.mu.Unlock()
 	if gate != nil {
 		gate(service)
+	}
+	if hook != nil {
+		if err := hook(req); err != nil {
+			return nil, err
+		}
 	}
 	return out, nil
 }
